@@ -478,4 +478,6 @@ func passesVMOutputParam(cs ssa.CallInstruction) bool {
 	return false
 }
 
-func c06r4(c *Ctx) { taintRule(c, "C06-R4", "no unbounded decoded count takes part in gas arithmetic", gasScope, taintGas, 1) }
+func c06r4(c *Ctx) {
+	taintRule(c, "C06-R4", "no unbounded decoded count takes part in gas arithmetic", gasScope, taintGas, 1)
+}
